@@ -137,6 +137,33 @@ claim("C18",
       TB + "kbextract's syntactic guard analysis (cross-checked row by row by the exhaustive run); role does not change within a request.",
       "Lean 4 proof + decide over a regenerated table + exhaustive differential table run", "docs/DESIGN-C18.md")
 
+claim("C05",
+      "Lean theorems KB.Props.C05: ring_find_spec (every capacity, every strictly increasing add sequence, the LITERAL index arithmetic and two-segment copy "
+      "of ring.go incl. wrap-around and the literal binary search); watch_prefix_of_spec over all schedules of the pipeline LTS (sequencer, ring, watchChan, hub "
+      "fan-out, subscribe / cache read / decide, forwarder, consumer; arbitrary capacities): delivered is always a prefix of the matching produced events — strictly "
+      "increasing, no duplicate, no gap, complete when drained; no_continue_after_gap; refused_iff; the pre-fix asynchronous delete is refuted by a decided witness. "
+      "Correspondence: registration raced at each of the three yield points x start revisions x cache sizes, slow consumer overflowing 10000+100 buffers, ring suite.",
+      TB + "Atomicity of each LTS step (channel send/receive, one mutex section); event source = strictly increasing valid events (C04).",
+      "Lean 4 proof (conservation invariant over all schedules of the watch pipeline) + gated differential correspondence", "docs/DESIGN-C05.md")
+claim("C19",
+      "PARTIAL. Lean theorems KB.Props.C19: generic `lock_discipline_race_free` over an abstract trace model (threads, mutex/RW-mutex/atomic edges, happens-before; "
+      "mutual exclusion derived from an operational lock machine): a location whose conflicting accesses hold a common lock (one in write mode), or is atomic-only, or "
+      "thread-confined, has no data race in any well-formed trace; instance `lock_table_disciplined` by decide over the lock table REGENERATED from the source "
+      "(120 accesses / 25 shared locations of memkv, ring, hub, retry queue, tso, slots, scanner, leader, election, syncer, etcd watcher). Failing-input search: "
+      "go test -race workloads (concurrent requests, watches, two compactions, retries).",
+      "Trusted: kbextract's lexical lock analysis (locks held at each syntactic access, one level of caller propagation, the memkv batch protocol), the abstract memory "
+      "model (no channel / WaitGroup / Once edges), confinement claims; only the tracked fields; third-party engines out of scope. " + TB,
+      "Lean 4 proof of the lock-discipline theorem + decide over a regenerated access table + race-detector workloads", "docs/DESIGN-C19-C20.md")
+claim("C20",
+      "Lean theorems KB.Props.C20 / C20Metrics / C20Requests: metric emission never panics — by decide over the table of ALL emission call sites regenerated from the "
+      "source (same formatted name => same kind and label-name set; valid names; client-controlled label values are sanitised) lifted by an induction over arbitrary "
+      "emission sequences of the modelled registry; hostile revisions (negative via the uint64 cast, far future) take the rejection path and their revision is "
+      "resolved; after ANY schedule of ANY requests over alphabet keys a fresh create+read works; stored keys never panic Decode. Correspondence: every site replayed "
+      "on the real Prometheus client, real Watch with non-UTF-8 keys, hostile keys/revisions/limits through the backend API each followed by a probe.",
+      TB + "One hypothesis kept visible: the leader address label (from the election record, not client-writable) is valid UTF-8. Known finding: a key containing the split byte "
+      "shadows another key's point reads.",
+      "Lean 4 proof + decide over a regenerated table + hostile-request differential runs with probes", "docs/DESIGN-C19-C20.md")
+
 ALL = ["C%02d" % i for i in range(1, 21)]
 
 
